@@ -232,6 +232,11 @@ Fixpoint extstrip (file : str) (exts : list str) : str :=
   | p :: r => if endswith file p then firstn (List.length file - List.length p) file else extstrip file r
   end.
 
+(* gopherentry.handleeaext: "\n".join([x.rstrip() for x in rfile.readlines(20480)])
+   for a sidecar file that fits the readlines hint *)
+Definition sidecar_value (text : str) : str :=
+  join [10] (map rstrip (lines_keepends (universal_newlines text))).
+
 (* what the directory handler knows about a child it could build an entry for *)
 Record child_info := mkChild {
   ci_entry : entry;        (* handler.getentry() *)
